@@ -20,7 +20,7 @@ def gen_array(rng, np, v, d):
 
 
 def gen_bounds(rng, v):
-    mode = rng.choice(['unit', 'neg', 'huge', 'degenerate', 'offset', 'tiny', 'asym'])
+    mode = rng.choice(['unit', 'neg', 'huge', 'degenerate', 'offset', 'tiny', 'asym', 'nearmax'])
     lb, ub = [], []
     for j in range(v):
         if mode == 'unit':
@@ -29,6 +29,10 @@ def gen_bounds(rng, v):
             l = -round(rng.uniform(1, 9), 2); u = l + round(rng.uniform(0.1, 5), 2)
         elif mode == 'huge':
             l, u = -1e12 * rng.random(), 1e12 * rng.random()
+        elif mode == 'nearmax':
+            # a finite range close to the largest double: the map must not overflow on the way
+            fm = 1.7976931348623157e308
+            l, u = rng.choice([(0.0, 0.9 * fm), (-0.45 * fm, 0.45 * fm), (-0.9 * fm, 0.0), (0.25 * fm, 0.95 * fm)])
         elif mode == 'degenerate':
             l = round(rng.uniform(-3, 3), 2); u = l
         elif mode == 'offset':
